@@ -19,13 +19,23 @@ def _pure_call(I, fn, *args):
     return b
 
 
+def _term_of(I, L):
+    """the list term of an abstract list; a symbolic range(n) is its index space"""
+    if isinstance(L, bm.LazySeq) and L.kind == "range" and L.concrete_items(I) is None:
+        from .loops import IndexSpace
+        if len(L.parts) != 1:
+            raise Unsupported("quantifier over a general range")
+        return IndexSpace(I, L.parts[0], 0)
+    return L.term
+
+
 def forall(I, args, kw):
     L, p = args
     items = I.try_iter_concrete(L)
     if items is not None:
         acc = [_pure_call(I, p, e) for e in items]
         return bm.simp_bool(z3.And(acc)) if acc else True
-    b, m = listops.exists_in(I, L.term, lambda e, i: z3.Not(_pure_call(I, p, e)), "forall")
+    b, m = listops.exists_in(I, _term_of(I, L), lambda e, i: z3.Not(_pure_call(I, p, e)), "forall")
     return z3.Not(b)
 
 
@@ -35,7 +45,7 @@ def exists(I, args, kw):
     if items is not None:
         acc = [_pure_call(I, p, e) for e in items]
         return bm.simp_bool(z3.Or(acc)) if acc else False
-    b, m = listops.exists_in(I, L.term, lambda e, i: _pure_call(I, p, e), "exists")
+    b, m = listops.exists_in(I, _term_of(I, L), lambda e, i: _pure_call(I, p, e), "exists")
     return b
 
 
